@@ -188,7 +188,7 @@ def run(ctx):
 
     # (3) end-to-end info / type
     cases = []
-    for k in range(10 if ctx.tier == 'quick' else 120):
+    for k in range(20 if ctx.tier == 'quick' else 120):
         used = set()
         names = []
         files = []
@@ -228,7 +228,7 @@ def run(ctx):
             cases.append(vlib.Case('fold-' + label, {'d.ssd': img}, ['--file', '@d.ssd', 'type', b':0.$.' + nm],
                                    meta={'kind': 'type', 'file': None, 'asked': (b'$', nm), 'files': files}))
     # Opus DDOS: two volumes with different files; --drive with a letter, names with and without :drive
-    for k in range(4 if ctx.tier == 'quick' else 40):
+    for k in range(8 if ctx.tier == 'quick' else 40):
         d = discs.AbsDisc('opus', 40, 18)
         fa = [discs.AbsFile(0x24, b'BOTH', False, 0, 0, 0, b'in-A'), discs.AbsFile(0x24, b'ONLYA', False, 0, 0, 1, b'only-A')]
         fb = [discs.AbsFile(0x24, b'BOTH', False, 0, 0, 0, b'in-B'), discs.AbsFile(0x24, b'ONLYB', False, 0, 0, 1, b'only-B')]
@@ -246,6 +246,8 @@ def run(ctx):
             for w, vol in ((b'*', dflt), (b':0.*', 'A'), (b':0B.*', 'B'), (b':0A.$.*', 'A')):
                 cases.append(vlib.Case('o%d' % k, {'o.sdd': img}, ['--file', '@o.sdd', '--drive', drive, 'info', w],
                                        meta={'kind': 'opus-info', 'want': sorted(expect[vol]), 'asked': (drive, w)}))
+    for c_ in cases:
+        c_.literal_at = True        # wildcards and names may begin with '@'
     vlib.run_cases(cases, impl['dfs'])
     for c in cases:
         common.compare_model(ctx, c, 'e2e-' + c.meta['kind'])
